@@ -488,14 +488,16 @@ impl ExecutableContent for Cancel {
     /// the specified id. Note, however, that it can not be guaranteed to succeed, for example if
     /// the event has already been delivered by the time the \<cancel> tag executes.
     fn execute(&self, datamodel: &mut dyn Datamodel, _fsm: &Fsm) -> bool {
-        if let Ok(send_id) =
-            datamodel.get_expression_alternative_value(&str_to_source(self.send_id.as_str()), &self.send_id_expr)
-        {
-            get_global!(datamodel)
-                .delayed_send
-                .remove(&send_id.lock().unwrap().to_string());
-        };
-        true
+        match datamodel.get_expression_alternative_value(&str_to_source(self.send_id.as_str()), &self.send_id_expr) {
+            Ok(send_id) => {
+                get_global!(datamodel)
+                    .delayed_send
+                    .remove(&send_id.lock().unwrap().to_string());
+                true
+            }
+            // The evaluation error was raised as error.execution: like for every other element the rest of the block is skipped.
+            Err(_) => false,
+        }
     }
 
     fn get_type(&self) -> u8 {
